@@ -17,6 +17,7 @@ pub mod c16;
 pub mod c17;
 pub mod c18;
 pub mod hist;
+pub mod scenarios;
 
 use crate::runner::PropDef;
 
